@@ -33,13 +33,28 @@ pub fn lattice() -> f32 {
     (k as f32) / 4.0
 }
 
+/// Coarse lattice for the quick tier: {-1, -0.5, 0, 0.5} (4 values per cell).
+pub fn lattice2() -> f32 {
+    let k = nd::i8_();
+    nd::assume(k >= -2 && k <= 1);
+    (k as f32) / 2.0
+}
+
 /// Symbolic scoring matrix; `WILD`: 0 = wildcard column -inf, 1 = wildcard on the lattice.
 pub fn any_matrix<const M: usize, const WILD: u8>() -> (ScoringMatrix<Dna>, [[f32; 5]; M]) {
+    // WILD: 0 = wildcard -inf, 1 = wildcard on the lattice; +2 = coarse 4-value lattice
+    let coarse = WILD >= 2;
     let mut d = DenseMatrix::<f32, U5>::new(M);
     let mut sh = [[0f32; 5]; M];
     for j in 0..M {
         for a in 0..5 {
-            let x = if a == 4 && WILD == 0 { f32::NEG_INFINITY } else { lattice() };
+            let x = if a == 4 && WILD % 2 == 0 {
+                f32::NEG_INFINITY
+            } else if coarse {
+                lattice2()
+            } else {
+                lattice()
+            };
             d[j][a] = x;
             sh[j][a] = x;
         }
@@ -126,17 +141,17 @@ fn avx2() -> Pipeline<Dna, Avx2> {
     Pipeline::default()
 }
 
-//@ C08 quick 2400 to_discrete + DiscreteMatrix::score_position + scale, M=2, wildcard column -inf
+//@ C08 thorough 7200 to_discrete + DiscreteMatrix::score_position + scale, M=2, wildcard column -inf
 harness!(none, 8, c08_position_m2, position_body::<2, 0>());
-//@ C08 quick 2400 to_discrete + generic u8 scoring (C=4), M=2, wildcard on the lattice
+//@ C08 thorough 7200 to_discrete + generic u8 scoring (C=4), M=2, wildcard on the lattice
 harness!(none, 8, c08_generic_m2_wild, pipeline_body::<U4, _, 2, 1, 0>(&generic()));
-//@ C08 quick 2400 to_discrete + AVX2 u8 scoring, M=2, window in the upper 128-bit lane (column 17)
+//@ C08 thorough 7200 to_discrete + AVX2 u8 scoring, M=2, window in the upper 128-bit lane (column 17)
 harness!(avx2, 34, c08_avx2_m2_at17, pipeline_body::<U32, _, 2, 0, 17>(&avx2()));
-//@ C08 quick 2400 to_discrete + AVX2 u8 scoring, M=3, window at column 0
+//@ C08 thorough 7200 to_discrete + AVX2 u8 scoring, M=3, window at column 0
 harness!(avx2, 34, c08_avx2_m3_at0, pipeline_body::<U32, _, 3, 0, 0>(&avx2()));
-//@ C08 quick 2400 to_discrete + dispatcher (SSE2 arm = generic u8 kernel), M=2, window at column 5
+//@ C08 thorough 7200 to_discrete + dispatcher (SSE2 arm = generic u8 kernel), M=2, window at column 5
 harness!(avx2, 34, c08_dispatch_sse2_m2, dispatch_body::<2, 0, 5>(Dispatch::Sse2));
-//@ C08 quick 2400 to_discrete + dispatcher (AVX2 arm), M=1
+//@ C08 quick 800 to_discrete + dispatcher (AVX2 arm), M=1
 harness!(avx2, 34, c08_dispatch_avx2_m1, dispatch_body::<1, 0, 30>(Dispatch::Avx2));
 //@ C08 thorough 7200 to_discrete + generic u8 scoring (C=4), M=3
 harness!(none, 8, c08_generic_m3, pipeline_body::<U4, _, 3, 0, 0>(&generic()));
@@ -148,3 +163,16 @@ harness!(avx2, 34, c08_avx2_m4_wild, pipeline_body::<U32, _, 4, 1, 9>(&avx2()));
 harness!(none, 8, c08_position_m4_wild, position_body::<4, 1>());
 //@ C08 thorough 7200 to_discrete + dispatcher (generic arm), M=3
 harness!(avx2, 34, c08_dispatch_generic_m3, dispatch_body::<3, 0, 12>(Dispatch::Generic));
+// --- quick tier: M = 1 on the 16-value lattice, M = 2 on the coarse 4-value lattice ---------
+//@ C08 quick 800 to_discrete + DiscreteMatrix::score_position + scale, M=1, wildcard on the lattice
+harness!(none, 8, c08_position_m1_wild, position_body::<1, 1>());
+//@ C08 quick 800 to_discrete + generic u8 scoring (C=4), M=1
+harness!(none, 8, c08_generic_m1, pipeline_body::<U4, _, 1, 0, 0>(&generic()));
+//@ C08 quick 800 to_discrete + DiscreteMatrix::score_position + scale, M=2, coarse lattice
+harness!(none, 8, c08_position_m2_coarse, position_body::<2, 2>());
+//@ C08 quick 800 to_discrete + generic u8 scoring (C=4), M=2, coarse lattice, wildcard on the lattice
+harness!(none, 8, c08_generic_m2_coarse_wild, pipeline_body::<U4, _, 2, 3, 0>(&generic()));
+//@ C08 quick 800 to_discrete + AVX2 u8 scoring, M=2, coarse lattice, window in the upper 128-bit lane
+harness!(avx2, 34, c08_avx2_m2_coarse_at17, pipeline_body::<U32, _, 2, 2, 17>(&avx2()));
+//@ C08 quick 800 to_discrete + dispatcher (SSE2 arm = generic u8 kernel), M=2, coarse lattice
+harness!(avx2, 34, c08_dispatch_sse2_m2_coarse, dispatch_body::<2, 2, 5>(Dispatch::Sse2));
